@@ -38,12 +38,17 @@ TY_NAME = {2: "RecA", 3: "RecB"}
 # --------------------------------------------------------------------------
 # pipeline generation
 # --------------------------------------------------------------------------
-def gen_pipeline(rng, n_rec, allow_sleep=True):
+def gen_pipeline(rng, n_rec, allow_sleep=True, family=False):
     """returns a spec: dict(steps=[(flavour, rules{val: rule}, default)], loader=(rules, default), sleeps, members)"""
     n_steps = rng.choice([0, 1, 2, 2, 3, 3, 4])
     flavours = [rng.choice(["a", "ab"]) for _ in range(n_steps)]
     deltas = [rng.choice([0, 0, 0, 1, 100]) for _ in range(n_steps + 1)]
     members = rng.sample(range(0, 60), n_rec)
+    if family and n_rec >= 2:
+        # identifiers that are suffixes / prefixes / substrings of each other, in every order
+        fam = rng.sample(range(900, 910), min(n_rec, rng.randint(2, 6)))
+        members = fam + members[: n_rec - len(fam)]
+        rng.shuffle(members)
     lrules, srules = {}, [dict() for _ in range(n_steps)]
     outcome = {}
     for m in members:
@@ -180,14 +185,14 @@ def observe_store(dstore, kind):
 # --------------------------------------------------------------------------
 # one real apply_to run
 # --------------------------------------------------------------------------
-def run_apply(ctx, tag, spec, inputs_members, store_kind, parallel, max_workers, outdir=None, mode="w"):
+def run_apply(ctx, tag, spec, inputs_members, store_kind, parallel, max_workers, outdir=None, mode="w", par_kw=None):
     from cogent3.app.data_store import DataStoreDirectory
     from cogent3.app.io import write_db, write_json
     from cogent3.app.sqlite_data_store import DataStoreSqlite
 
     base = ctx.scratch / f"c14_{tag}"
     base.mkdir(exist_ok=True)
-    paths = [str(base / "in" / f"r{m:03d}.txt") for m in inputs_members]
+    paths = [str(base / "in" / f"{_ident(m)}.txt") for m in inputs_members]
     outdir = outdir or str(base / ("out" if store_kind == "dir" else "out.sqlitedb"))
     if store_kind == "dir":
         ds = DataStoreDirectory(outdir, mode=mode, suffix="json")
@@ -207,7 +212,7 @@ def run_apply(ctx, tag, spec, inputs_members, store_kind, parallel, max_workers,
     exc = None
     t = time.time()
     try:
-        kw = dict(parallel=True, par_kw=dict(max_workers=max_workers)) if parallel else {}
+        kw = dict(parallel=True, par_kw=dict(par_kw or {}, max_workers=max_workers)) if parallel else {}
         app.apply_to(paths, logger=False, show_progress=False, **kw)
     except Exception as e:  # noqa
         exc = f"{type(e).__name__}: {e}"[:200]
@@ -226,7 +231,9 @@ def run_apply(ctx, tag, spec, inputs_members, store_kind, parallel, max_workers,
 
 
 def _ident(m):
-    return f"r{m:03d}"
+    from .c14_apps import member_name
+
+    return member_name(m)
 
 
 def _compare_run(out, kind, spec, members, res, expected, what_prefix, inp, sigp):
@@ -269,23 +276,40 @@ def _runs(ctx, budget):
     n_serial = ctx.budget(40, 400) * max(1, budget // 4)
     n_par = ctx.budget(6, 60) * max(1, budget // 8)
     runs = []
+    # (max_workers, chunksize, if_serial): chunk sizes that do not divide the input count, one worker, many workers
+    par_cfgs = [(2, 3, None), (3, 4, None), (1, None, None), (4, 7, "ignore"), (6, 2, None), (5, 1, "warn"), (3, None, None), (2, 7, None),
+                (4, 3, None), (6, 4, "ignore"), (5, None, None), (3, 2, None)]
+    rng.shuffle(par_cfgs)
     for i in range(n_serial + n_par):
         parallel = i >= n_serial
-        n_rec = rng.randint(1, 12) if not parallel else rng.randint(5, 12)
-        spec = gen_pipeline(rng, n_rec, allow_sleep=parallel)
+        par_kw = {}
+        if parallel:
+            mw, cs, ifs = par_cfgs[(i - n_serial) % len(par_cfgs)]
+            n_rec = rng.randint(1, 12) if (i - n_serial) % 5 == 4 else rng.randint(5, 12)
+            if cs and cs > 1:
+                while n_rec % cs == 0 or n_rec <= cs:
+                    n_rec = n_rec + 1 if n_rec < 12 else cs + 1
+                par_kw["chunksize"] = cs
+            elif cs:
+                par_kw["chunksize"] = cs
+            if ifs:
+                par_kw["if_serial"] = ifs
+        else:
+            mw = rng.randint(2, 6)
+            n_rec = rng.randint(1, 12)
+        spec = gen_pipeline(rng, n_rec, allow_sleep=parallel, family=rng.random() < 0.45)
         store_kind = rng.choice(["dir", "dir", "sqlite"])
-        mw = rng.randint(2, 6)
         members = list(spec["members"])
         tag = f"{budget}_{i}"
-        r = dict(spec=spec, members=members, store_kind=store_kind, parallel=parallel, mw=mw, tag=tag, pre=None)
-        # a third of the serial runs are resumed runs: first a prefix of the inputs, then all of them
-        if not parallel and rng.random() < 0.35 and n_rec >= 2:
+        r = dict(spec=spec, members=members, store_kind=store_kind, parallel=parallel, mw=mw, par_kw=par_kw, tag=tag, pre=None)
+        # a third of the runs are resumed runs (mode='a'): first a prefix of the inputs (serially), then all of them
+        if rng.random() < 0.35 and n_rec >= 2:
             j = rng.randint(1, n_rec - 1)
             first = run_apply(ctx, tag, spec, members[:j], store_kind, False, mw)
             r["pre"] = dict(members=members[:j], res=first)
-            r["res"] = run_apply(ctx, tag, spec, members, store_kind, False, mw, outdir=first["outdir"], mode="a")
+            r["res"] = run_apply(ctx, tag, spec, members, store_kind, parallel, mw, outdir=first["outdir"], mode="a", par_kw=par_kw)
         else:
-            r["res"] = run_apply(ctx, tag, spec, members, store_kind, parallel, mw)
+            r["res"] = run_apply(ctx, tag, spec, members, store_kind, parallel, mw, par_kw=par_kw)
         runs.append(r)
     cache[budget] = runs
     return runs
@@ -328,7 +352,8 @@ def correspondence(ctx):
                                      order=_order_positions(selected, r["res"]["order"]))))
     for r, mr in zip(reqs, ctx.driver.batch(second)):
         out["evaluations"] += 1
-        inp = dict(tag=r["tag"], parallel=r["parallel"], max_workers=r["mw"], store=r["store_kind"], members=r["members"], resumed=bool(r["pre"]), spec=_spec_brief(r["spec"]))
+        inp = dict(tag=r["tag"], parallel=r["parallel"], max_workers=r["mw"], par_kw=r["par_kw"], store=r["store_kind"], members=r["members"],
+                   names=[_ident(m) for m in r["members"]], resumed=bool(r["pre"]), first=(r["pre"] or {}).get("members"), spec=_spec_brief(r["spec"]))
         if "err" in mr:
             add_failure(out, "corr", "model raises ValueError (non-unique identifier) but inputs are distinct", inp, "store", mr, confirmed=False)
             continue
@@ -336,12 +361,14 @@ def correspondence(ctx):
         same = _compare_run(out, "corr", r["spec"], r["members"], r["res"], expected, "real store vs Lean applyTo", inp, "corr:")
         order_ids = r["res"]["order"]
         nonident = order_ids != [_ident(m) for m in r["members"] if _ident(m) in order_ids]
-        bump(out, "mode", "parallel" if r["parallel"] else ("serial-resumed" if r["pre"] else "serial"))
+        bump(out, "mode", ("parallel" if r["parallel"] else "serial") + ("-resumed" if r["pre"] else ""))
+        bump(out, "id_family", sum(1 for m in r["members"] if m >= 900))
         bump(out, "n_records", len(r["members"]))
         bump(out, "n_steps", len(r["spec"]["steps"]))
         bump(out, "store", r["store_kind"])
         if r["parallel"]:
             bump(out, "max_workers", r["mw"])
+            bump(out, "chunksize", r["par_kw"].get("chunksize"))
             bump(out, "completion_order", "permuted" if nonident else "input-order")
         for m, o in r["spec"]["outcome"].items():
             bump(out, "outcome", o)
@@ -369,8 +396,8 @@ def _corr_calls(ctx, out):
         steps = model_steps(spec)
         for m in spec["members"][:3]:
             reqs.append(("call", dict(steps=steps, input={"ok": [1, m, m]})))
-            reals.append(canon_value(app(f"/data/r{m:03d}.txt")))
-            inps.append(dict(spec=_spec_brief(spec), input=f"r{m:03d}.txt"))
+            reals.append(canon_value(app(f"/data/{_ident(m)}.txt")))
+            inps.append(dict(spec=_spec_brief(spec), input=f"{_ident(m)}.txt"))
         if i % 3 == 0:
             reqs.append(("call", dict(steps=steps, input=None)))
             reals.append(canon_value(app(None)))
@@ -399,16 +426,17 @@ def spec_check(ctx, budget):
         "record == app(x) called on that input alone in this process (fresh app, no writer); plus pipelines ending in write_seqs fed a value the "
         "writer's type check rejects; non-trivial = runs with failures or permuted completion"
     )
+    _regression_witnesses(ctx, out)
     for r in _runs(ctx, budget):
         out["evaluations"] += 1
         inner = build_inner(r["spec"], False)
         base = ctx.scratch / f"c14_{r['tag']}"
         expected = {}
         for m in r["members"]:
-            v = canon_value(inner(str(base / "in" / f"r{m:03d}.txt")))
+            v = canon_value(inner(str(base / "in" / f"{_ident(m)}.txt")))
             expected[m] = v
-        inp = dict(kind="generated", tag=r["tag"], parallel=r["parallel"], max_workers=r["mw"], store=r["store_kind"], members=r["members"],
-                   resumed=bool(r["pre"]), spec=_spec_brief(r["spec"]))
+        inp = dict(kind="generated", tag=r["tag"], parallel=r["parallel"], max_workers=r["mw"], par_kw=r["par_kw"], store=r["store_kind"], members=r["members"],
+                   names=[_ident(m) for m in r["members"]], resumed=bool(r["pre"]), first=(r["pre"] or {}).get("members"), spec=_spec_brief(r["spec"]))
         ok = _compare_run(out, "spec", r["spec"], r["members"], r["res"], expected, "store vs app(x) alone", inp, "")
         if ok and (any(v[0] == "nc" for v in expected.values()) or r["parallel"]):
             out["nontrivial"].add(("spec", r["tag"]))
@@ -417,7 +445,47 @@ def spec_check(ctx, budget):
     out["evaluations"] += 1
     if f:
         out["failures"].append(f)
+    _parallel_direct(ctx, out, budget)
     return out
+
+
+def _parallel_case(fn, n, mw, cs):
+    """util.parallel.<fn>(slow_square, range(n), max_workers=mw, chunksize=cs): (expected, got)"""
+    from cogent3.util import parallel as PAR
+
+    from .c14_funcs import slow_square
+
+    kw = dict(max_workers=mw)
+    if cs is not None:
+        kw["chunksize"] = cs
+    exp = [[x, x * x] for x in range(n)]
+    try:
+        got = [list(r) for r in getattr(PAR, fn)(slow_square, list(range(n)), **kw)]
+    except Exception as e:  # noqa
+        return exp, f"{type(e).__name__}: {e}"[:160]
+    if fn == "as_completed":
+        got = sorted(got)  # any order, but every task exactly once
+    return exp, got
+
+
+def _parallel_direct(ctx, out, budget):
+    """every task's result exactly once (as_completed) / in order (imap, map) for every (n, max_workers, chunksize)"""
+    cache = ctx.__dict__.setdefault("_c14par", {})
+    key = 1 if budget in (1, 10) else budget
+    if key not in cache:
+        rng = ctx.subrng(f"pardirect{key}")
+        grid = [(fn, n, mw, cs) for fn in ("as_completed", "imap", "map") for n in range(1, 13) for mw in range(1, 7) for cs in (None, 1, 2, 3, 4, 7)]
+        must = [("as_completed", 10, 3, 3), ("as_completed", 10, 2, 4), ("imap", 10, 3, 4), ("map", 11, 2, 7), ("as_completed", 1, 1, None), ("imap", 5, 6, 7)]
+        cases = must + rng.sample(grid, ctx.budget(30, 400) * (1 if key == 1 else 2))
+        cache[key] = [(c, _parallel_case(*c)) for c in cases]
+    for (fn, n, mw, cs), (exp, got) in cache[key]:
+        out["evaluations"] += 1
+        bump(out, "parallel_direct", fn)
+        if exp != got:
+            add_failure(out, "spec", f"util.parallel.{fn} does not return every task's result exactly once" + (" in order" if fn != "as_completed" else ""),
+                        dict(kind="parallel_direct", fn=fn, n=n, max_workers=mw, chunksize=cs), exp, got, sig=f"parallel:{fn}:results-differ")
+        elif n > 1:
+            out["nontrivial"].add(("par", fn, n, mw, cs))
 
 
 def _writer_type_case(ctx, w):
@@ -458,6 +526,28 @@ def _writer_type_case(ctx, w):
     return None
 
 
+def _regression_witnesses(ctx, out):
+    """the witnesses of the FIXED findings are permanent regression tests: each is replayed on the real code first, so that a
+    regression is reported as a VIOLATION whose replay is exactly the old witness"""
+    import json as _json
+
+    from .common import VERIF as _V
+
+    fp = _V / "known_findings.d" / f"{PROP}.json"
+    if not fp.exists():
+        return
+    for k in _json.loads(fp.read_text()).get("findings", []):
+        if k.get("status") != "fixed" or "witness" not in k:
+            continue
+        out["evaluations"] += 1
+        bump(out, "regression_witness", k["id"])
+        f = check_witness(ctx, k["witness"])
+        if f:
+            f = dict(f, what=f"REGRESSION of fixed finding {k['id']} ({k.get('commit')}): " + f["what"])
+            f["input"] = dict(f.get("input") or {}, regression_of=k["id"])
+            out["failures"].append(f)
+
+
 def match_finding(f, k):
     if f.get("sig") not in k.get("sigs", []):
         return False
@@ -490,15 +580,24 @@ def replay(ctx, data):
         r = _writer_type_case(ctx, dict(n=inp["n"], bad=inp["bad"]))
         print(r)
         return r is not None
+    if inp.get("kind") == "parallel_direct":
+        exp, got = _parallel_case(inp["fn"], inp["n"], inp["max_workers"], inp["chunksize"])
+        print("expected", exp, "got", got)
+        return exp != got
     if inp.get("kind") == "generated":
         spec = inp["spec"]
         spec = dict(loader=dict(rules={int(k): v for k, v in spec["loader"]["rules"].items()}, default=spec["loader"]["default"]),
                     steps=[dict(flavour=s["flavour"], rules={int(k): v for k, v in s["rules"].items()}, default=s["default"]) for s in spec["steps"]],
                     sleeps={int(k): v for k, v in spec["sleeps"].items()}, members=inp["members"], outcome={})
-        res = run_apply(ctx, "replay", spec, inp["members"], inp["store"], inp["parallel"], inp["max_workers"])
+        if inp.get("first"):
+            first = run_apply(ctx, "replay", spec, inp["first"], inp["store"], False, inp["max_workers"])
+            res = run_apply(ctx, "replay", spec, inp["members"], inp["store"], inp["parallel"], inp["max_workers"], outdir=first["outdir"], mode="a",
+                            par_kw=inp.get("par_kw"))
+        else:
+            res = run_apply(ctx, "replay", spec, inp["members"], inp["store"], inp["parallel"], inp["max_workers"], par_kw=inp.get("par_kw"))
         inner = build_inner(spec, False)
         base = ctx.scratch / "c14_replay"
-        expected = {m: canon_value(inner(str(base / "in" / f"r{m:03d}.txt"))) for m in inp["members"]}
+        expected = {m: canon_value(inner(str(base / "in" / f"{_ident(m)}.txt"))) for m in inp["members"]}
         out = new_outcome()
         ok = _compare_run(out, "spec", spec, inp["members"], res, expected, "replay", inp, "")
         for x in out["failures"]:
